@@ -260,8 +260,9 @@ namespace OP2Utility::Archive
 		{
 			IndexEntry indexEntry;
 
+			// Note: The size is stored in a signed 32 bit index field and a 31 bit block length field
 			uint64_t fileSize = volInfo.fileStreamReaders[i]->Length();
-			if (fileSize > UINT32_MAX) {
+			if (fileSize > INT32_MAX) {
 				throw std::runtime_error("File " + volInfo.filesToPack[i] +
 					" is too large to fit inside a volume archive. Writing volume " + volumeFilename + " aborted.");
 			}
@@ -300,7 +301,13 @@ namespace OP2Utility::Archive
 		for (std::size_t i = 1; i < volInfo.fileCount(); ++i)
 		{
 			const IndexEntry& previousIndex = volInfo.indexEntries[i - 1];
-			volInfo.indexEntries[i].dataBlockOffset = (previousIndex.dataBlockOffset + previousIndex.fileSize + 11) & ~3;
+			// Note: Calculate in 64 bits. The offset is stored in an unsigned 32 bit index field
+			const uint64_t dataBlockOffset = (static_cast<uint64_t>(previousIndex.dataBlockOffset) + previousIndex.fileSize + 11) & ~static_cast<uint64_t>(3);
+			if (dataBlockOffset > UINT32_MAX) {
+				throw std::runtime_error("File " + volInfo.filesToPack[i] +
+					" starts beyond the 4 GiB a volume archive can address. Writing volume " + volumeFilename + " aborted.");
+			}
+			volInfo.indexEntries[i].dataBlockOffset = static_cast<uint32_t>(dataBlockOffset);
 		}
 	}
 
